@@ -349,6 +349,27 @@ func helperCasesC05(c *Ctx) {
 		for j := range l {
 			l[j] = randBlob(r, nss, 2500)
 		}
+		if k >= 2 && i%3 == 0 {
+			// two blobs of one batch that differ ONLY in share version / signer (same namespace, same data),
+			// and a byte-identical duplicate: the j-th commitment must depend on the j-th blob alone
+			a := l[0]
+			b := a
+			b.data = append([]byte{}, a.data...)
+			if a.ver == 1 {
+				switch i % 2 {
+				case 0:
+					b.ver, b.signer = 0, nil
+				default:
+					b.signer = randSigner(r)
+				}
+			} else {
+				b.ver, b.signer = 1, randSigner(r)
+			}
+			l[1] = b
+			if k >= 3 {
+				l[2] = a
+			}
+		}
 		thr := pick(r, []int{1, 2, 3, 4, 64})
 		if r.Intn(9) == 0 {
 			thr = 0 // integer division by zero inside SubTreeWidth (unless there is no blob)
